@@ -60,7 +60,13 @@ def serialize (S : Ser V) (da : DA V) : List Nat :=
   [da.kind] ++ serU32 da.numStates
 
 /-- `MatchKind::from(u8)`: unknown bytes decode to Standard. -/
-def decodeKind (b : Nat) : Nat := if b = 1 then 1 else if b = 2 then 2 else 0
+def kindByteOf (name : String) : Nat := ((Gen.kindBytes.find? (·.1 == name)).map (·.2)).getD 0
+
+/-- `MatchKind::from(u8)` followed by `u8::from(MatchKind)` (kinds are identified with their byte). -/
+def decodeKind (b : Nat) : Nat :=
+  match Gen.kindFromU8.find? (·.1 == b) with
+  | some (_, name) => kindByteOf name
+  | none => kindByteOf Gen.kindFromU8Default
 
 def deU32 (bs : List Nat) : Option (Nat × List Nat) :=
   match bs with
